@@ -1288,14 +1288,14 @@ func b2u(b bool) uint64 {
 
 // Eval computes the value of t under the model; unassigned variables are zero.
 func (e *Evaluator) Eval(t *T) uint64 {
-	switch t.Op {
-	case OConst:
+	if t.Op == OConst {
 		return t.C
-	case OVar:
-		return e.M[t.Name] & maskS(t.S)
 	}
 	if v, ok := e.cache[t]; ok {
 		return v
+	}
+	if t.Op == OVar {
+		return e.M[t.Name] & maskS(t.S)
 	}
 	v := e.eval(t)
 	e.cache[t] = v
@@ -1413,3 +1413,156 @@ func (e *Evaluator) eval(t *T) uint64 {
 	panic(fmt.Sprintf("term.eval: op %d", t.Op))
 }
 
+
+// ---------- partial evaluation under known facts ----------
+
+// Facts maps terms to values known to hold on the current path (from path-condition
+// conjuncts of the form t, (not t), (= t const)).
+type Facts struct {
+	M    map[*T]uint64
+	memo map[*T]pres
+}
+
+type pres struct {
+	v  uint64
+	ok bool
+}
+
+func NewFacts() *Facts { return &Facts{M: map[*T]uint64{}, memo: map[*T]pres{}} }
+
+// Add records the consequences of asserting c.
+func (f *Facts) Add(c *T) {
+	changed := f.add(c, 1)
+	if changed {
+		f.memo = map[*T]pres{}
+	}
+}
+
+func (f *Facts) add(c *T, val uint64) bool {
+	if c.Op == OConst {
+		return false
+	}
+	if old, ok := f.M[c]; ok && old == val {
+		return false
+	}
+	f.M[c] = val
+	switch c.Op {
+	case ONot:
+		f.add(c.X, 1-val)
+	case OAnd:
+		if val == 1 {
+			f.add(c.X, 1)
+			f.add(c.Y, 1)
+		}
+	case OOr:
+		if val == 0 {
+			f.add(c.X, 0)
+			f.add(c.Y, 0)
+		}
+	case OEq:
+		if val == 1 {
+			if c.Y.Op == OConst {
+				f.add(c.X, c.Y.C)
+			} else if c.X.Op == OConst {
+				f.add(c.Y, c.X.C)
+			}
+		}
+	case OZExt:
+		if c.X.S.K == KBV && val&^mask(c.X.S.W) == 0 {
+			f.add(c.X, val)
+		}
+	}
+	return true
+}
+
+// PEval evaluates t using only the facts; ok=false when the value is not determined.
+func (f *Facts) PEval(t *T) (uint64, bool) {
+	if t.Op == OConst {
+		return t.C, true
+	}
+	if v, ok := f.M[t]; ok {
+		return v, true
+	}
+	if r, ok := f.memo[t]; ok {
+		return r.v, r.ok
+	}
+	v, ok := f.peval(t)
+	f.memo[t] = pres{v, ok}
+	return v, ok
+}
+
+func (f *Facts) peval(t *T) (uint64, bool) {
+	switch t.Op {
+	case OVar:
+		return 0, false
+	case ONot:
+		if v, ok := f.PEval(t.X); ok {
+			return 1 - v, true
+		}
+		return 0, false
+	case OAnd:
+		a, oka := f.PEval(t.X)
+		if oka && a == 0 {
+			return 0, true
+		}
+		b, okb := f.PEval(t.Y)
+		if okb && b == 0 {
+			return 0, true
+		}
+		if oka && okb {
+			return 1, true
+		}
+		return 0, false
+	case OOr:
+		a, oka := f.PEval(t.X)
+		if oka && a == 1 {
+			return 1, true
+		}
+		b, okb := f.PEval(t.Y)
+		if okb && b == 1 {
+			return 1, true
+		}
+		if oka && okb {
+			return 0, true
+		}
+		return 0, false
+	case OIte:
+		c, okc := f.PEval(t.X)
+		if okc {
+			if c == 1 {
+				return f.PEval(t.Y)
+			}
+			return f.PEval(t.Z)
+		}
+		a, oka := f.PEval(t.Y)
+		b, okb := f.PEval(t.Z)
+		if oka && okb && a == b {
+			return a, true
+		}
+		return 0, false
+	}
+	// generic: all operands known -> evaluate concretely
+	var args [3]uint64
+	for i, a := range []*T{t.X, t.Y, t.Z} {
+		if a == nil {
+			continue
+		}
+		v, ok := f.PEval(a)
+		if !ok {
+			return 0, false
+		}
+		args[i] = v
+	}
+	m := Model{}
+	ev := &Evaluator{M: m, cache: map[*T]uint64{}}
+	if t.X != nil {
+		ev.cache[t.X] = args[0]
+	}
+	if t.Y != nil {
+		ev.cache[t.Y] = args[1]
+	}
+	if t.Z != nil {
+		ev.cache[t.Z] = args[2]
+	}
+	return ev.eval(t), true
+}
